@@ -16,7 +16,8 @@ CLAIMED = {
             "functions vs the native Lean driver + independent numpy reference oracle",
             "Theorems (Props/C02.lean), all ranks/shapes/kernels/points: every code path of compute_interpolation_weights / "
             "batch_outer_operation is the row-major outer product of hat weights and the hypercube output equals iterated 1-D "
-            "interpolation; vertex reproduction, convex weights, range bound, cell chord formula on closed cells (continuity), "
+            "interpolation; vertex reproduction, convex weights, range bound, cell chord formula on closed cells, explicit Lipschitz "
+            "bound and uniform epsilon-delta continuity across cells and simplex regions (Props/C02Lip.lean, C02_T6_*), "
             "all-pairs monotonicity along a monotone kernel axis, Edgeworth effect-monotonicity. Simplex: convex weights, sorted "
             "permutation, flat-index bridge (evalSimplex = walk over multi-indices, no out-of-bounds gather), agreement with "
             "hypercube on vertices and axis-parallel edges, tie-independence, range, and ALL-PAIRS monotonicity across ordering "
@@ -158,8 +159,10 @@ CLAIMED = {
             "the PWLCalibration output and the categorical output of the REAL evaluation models are dot(weights(x), kernel) with "
             "kernel-independent weights (non-negative, summing to one for Lattice; one-hot for categorical), with exact "
             "difference quotients in every kernel entry.",
-            "4/C19", "derivatives are stated as exact difference quotients of functions affine in each kernel entry (no HasDerivAt "
-            "form); TF autodiff itself is exercised by the GradientTape correspondence. "),
+            "4/C19", "Props/C19Deriv.lean adds Mathlib's analytic form: HasDerivAt per coordinate / HasFDerivAt for the whole gradient "
+            "of the plain real product = gradFactors (every zero pattern), and HasDerivAt of every kernel entry = interpolation "
+            "weight for hypercube, simplex, PWL and categorical outputs, also for ANY continuous real extension of the rational "
+            "model; TF autodiff itself is exercised by the GradientTape correspondence. "),
     "C20": ("Lean 4 theorems (structural induction on dot/clip) on the model of Linear.call + differential correspondence of the "
             "real float64 layer + consequence oracles on constrained kernels",
             "Theorems (Props/C20.lean), all kernels/bounds/inputs: output = bias + sum k_i*clip(x_i); clip monotone and in bounds; "
@@ -188,7 +191,14 @@ CLAIMED = {
             "range quadruple and corner) lands in its half-space, fixes it and satisfies the variational inequality, i.e. is the "
             "exact Euclidean projection; on the EXECUTABLE table loop: every group map is local, a kernel feasible for all "
             "configured families (FeasibleD) is returned unchanged for every iteration count (projectByDykstraT_feasible), "
-            "re-projection is idempotent on fixed points, telescoping invariant, table loop = function loop on the box.", "4/C08", "PARTIAL: convergence of Dykstra's algorithm (violation -> 0, limit = nearest point) is NOT proved (C08_limit_partial); it is tested each run against scipy SLSQP on small lattices, and the PWL iterative projection is covered by the oracle here and by C04's model. "),
+            "re-projection is idempotent on fixed points, telescoping invariant, table loop = function loop on the box. "
+            "CONVERGENCE (Boyle-Dykstra) is PROVED: Lemmas/DykstraConv.lean (abstract theorem in a finite-dimensional real inner "
+            "product space for maps that land in closed sets and satisfy the variational inequality), DykstraConvBox.lean "
+            "(rational model loop = restriction of the real one), DykstraConvStencil.lean + Props/C08.lean: every group map of "
+            "monotonicity, unimodality, Edgeworth, trapezoid, monotonic dominance and joint monotonicity IS the Euclidean "
+            "projection onto its feasible set (key_lands, key_vi); dykstra_cfg_converges / projectByDykstraT_cfg_converges: for "
+            "every such configuration and every kernel the iterates (function-level and executable table loop) converge to the "
+            "Euclidean-nearest feasible kernel, the violation tends to 0. ", "4/C08", "PARTIAL: range dominance is outside the convergence theorem (the property does not claim a nearest-point limit for it; its corner map is proved NOT to be a Euclidean projection, rangeDom_corner_not_projection) and is tested against scipy SLSQP / violation -> 0 each run; the RATE of convergence (how many iterations the strict layer constraint needs) and the PWL iterative projection's limit are covered by the oracle here and by C04's model. "),
     "C06": ("Lean 4 theorems on an executable model of linear_lib.project / categorical project / "
             "internal_utils partial-order projection + differential correspondence against the real constraints",
             "Theorems (Props/C06.lean): categorical pairs+bounds+fixpoint; Linear sign clip, monotonic-dominance and range-dominance stages establish every pair and keep signs (non-zero scalings), normalisation keeps all and gives unit 1-norm, feasible=>unchanged; for every weight "
